@@ -132,7 +132,7 @@ func (w *World) enabled() []Event {
 	nextIdx := map[string]int{}
 	for i := range s.Script {
 		it := &s.Script[i]
-		if w.fired[i] {
+		if w.fired[i] || it.Manual {
 			continue
 		}
 		if _, seen := nextIdx[it.Actor]; seen {
@@ -378,7 +378,7 @@ func (w *World) nextHarnessTimer() time.Duration {
 		}
 	}
 	for i := range w.scn.Script {
-		if !w.fired[i] {
+		if !w.fired[i] && !w.scn.Script[i].Manual {
 			consider(w.scn.Script[i].At)
 		}
 	}
@@ -470,28 +470,37 @@ func RunOnce(t *testing.T, scn *Scenario, prefix []string, keepTrace bool) (res 
 		h := fnv.New64a()
 		for step := 0; ; step++ {
 			synctest.Wait()
-			w.mu.Lock()
+			w.lock()
 			w.observe(h, res)
 			if w.now() >= scn.Horizon || step >= maxSteps || w.spin != "" {
-				w.mu.Unlock()
+				w.unlock()
 				break
 			}
 			evs := w.enabled()
 			i := ch.choose(evs)
 			if i < 0 {
-				w.mu.Unlock()
+				w.unlock()
 				break
 			}
 			e := evs[i]
 			w.stepTarget = e.tgt
 			w.curEvent = e.Name
 			if e.run == nil { // time
-				w.mu.Unlock()
+				w.unlock()
 				w.passTime()
 				continue
 			}
+			if scn.FineAt != "" && !w.fineUsed && e.Name == scn.FineAt {
+				w.fineOn, w.fineUsed = true, true
+				w.gnames, w.glabels = map[int]string{}, map[string]int{}
+				w.ev(Ev{K: "fine.on", S: e.Name})
+				for _, idx := range scn.FineFire {
+					w.fired[idx] = true
+					w.runItem(idx)
+				}
+			}
 			e.run()
-			w.mu.Unlock()
+			w.unlock()
 			res.Steps++
 		}
 		res.Chosen, res.Alts, res.Diverged = ch.chosen, ch.alts, ch.diverged
@@ -511,9 +520,9 @@ func RunOnce(t *testing.T, scn *Scenario, prefix []string, keepTrace bool) (res 
 // observe takes the quiescent-point snapshot (DESIGN §2.6) and folds it into the
 // execution hash and the fingerprint list.
 func (w *World) observe(h interface{ Write([]byte) (int, error) }, res *Result) {
-	w.mu.Unlock()
+	w.unlock()
 	snaps := w.snapshot()
-	w.mu.Lock()
+	w.lock()
 	qe := Ev{K: "q", Snap: snaps, Rec: parseRec(w.store.Live("g", w.now()))}
 	for k := range w.store.Latest {
 		if k != "g" {
@@ -621,6 +630,12 @@ func (w *World) snapshot() []ISnap {
 		}
 		n++
 		go func() {
+			w.mu.Lock()
+			if w.helpers == nil {
+				w.helpers = map[int]bool{}
+			}
+			w.helpers[curGID()] = true
+			w.mu.Unlock()
 			st := in.el.Status()
 			resc <- r{idx, statusView{st.State, st.IsLeader, st.Token, st.LeaderID, st.Revision}}
 		}()
@@ -639,8 +654,10 @@ func (w *World) snapshot() []ISnap {
 		}
 		break
 	}
+	fine := w.fineOn || len(w.parked) > 0
 	for i := range snaps {
-		if snaps[i].Blocked {
+		snaps[i].Fine = fine
+		if snaps[i].Blocked && !fine {
 			w.insts[snaps[i].I].statusStuck = true
 		}
 	}
@@ -660,7 +677,7 @@ type statusView struct {
 // teardown ends the execution: cancel everything, fail what is in flight, let the
 // bubble drain for a virtual hour, and take a census of what is still there.
 func (w *World) teardown(res *Result) {
-	w.mu.Lock()
+	w.lock()
 	allStopped := len(w.pending) == 0
 	nCreated := 0
 	for _, id := range w.order {
@@ -683,12 +700,12 @@ func (w *World) teardown(res *Result) {
 	w.closing = true
 	w.fineOn = false
 	w.ev(Ev{K: "teardown"})
-	w.mu.Unlock()
+	w.unlock()
 	w.releaseParked()
 	w.rootCancel()
 	for round := 0; round < 50; round++ {
 		synctest.Wait()
-		w.mu.Lock()
+		w.lock()
 		ps := append([]*Op(nil), w.pending...)
 		for _, op := range ps {
 			if !op.Answered {
@@ -701,7 +718,7 @@ func (w *World) teardown(res *Result) {
 				w.answer(op)
 			}
 		}
-		w.mu.Unlock()
+		w.unlock()
 		w.releaseParked()
 		if len(ps) == 0 && round > 0 {
 			break
@@ -709,14 +726,14 @@ func (w *World) teardown(res *Result) {
 	}
 	time.Sleep(time.Hour)
 	synctest.Wait()
-	w.mu.Lock()
+	w.lock()
 	ps := append([]*Op(nil), w.pending...)
 	for _, op := range ps {
 		op.Fault = "closed"
 		op.resErr = nats.ErrConnectionClosed
 		w.answer(op)
 	}
-	w.mu.Unlock()
+	w.unlock()
 	synctest.Wait()
 	if runtime.NumGoroutine() > w.baseGor {
 		res.Stuck = libraryGoroutines(true)
